@@ -1023,6 +1023,87 @@ theorem uses_must_count_initial_values :
     execLoop W 9 (fun _ => 0) = some ([], .brk 3) ∧ execLoop W 9 (update (fun _ => 0) 0 7) = some ([], .brk 7) := by
   refine ⟨by decide, by decide, ?_, ?_⟩ <;> rfl
 
+/-! ### LICM over every statement kind -/
+
+/-- FULL STRENGTH: whatever the loop body, every statement LICM hoists is a value-defining statement
+that cannot trap and reads no loop-variant name (neither a loop variable nor a name defined by a
+statement that stayed in the loop before it). -/
+theorem licmF_hoisted_invariant (p : List LS) (variant : List Nat) :
+    ∀ s, s ∈ (licmF p variant).1 →
+      ∃ x reads, s = .pure x reads false ∧ ∀ v, v ∈ reads → v ∉ variant := by
+  induction p generalizing variant with
+  | nil => intro s h; simp [licmF] at h
+  | cons st r ih =>
+    intro s h
+    cases st with
+    | stay defs =>
+      simp only [licmF] at h
+      obtain ⟨x, reads, hs, hr⟩ := ih (defs ++ variant) s h
+      exact ⟨x, reads, hs, fun v hv hm => hr v hv (List.mem_append_right _ hm)⟩
+    | pure x reads trap =>
+      simp only [licmF] at h
+      split at h
+      · rename_i hc
+        simp only [Bool.and_eq_true, Bool.not_eq_true', List.all_eq_true] at hc
+        simp only [List.mem_cons] at h
+        rcases h with rfl | h
+        · refine ⟨x, reads, by rw [hc.1], ?_⟩
+          intro v hv hm
+          have := hc.2 v hv
+          simp at this; exact this hm
+        · exact ih variant s h
+      · obtain ⟨y, rs, hs, hr⟩ := ih (x :: variant) s h
+        exact ⟨y, rs, hs, fun v hv hm => hr v hv (List.mem_cons_of_mem _ hm)⟩
+
+/-- every name defined by a statement that stays in the loop is reported loop-variant, and the
+variant set only grows (so later hoisting decisions see it) -/
+theorem licmF_variant_grows (p : List LS) (variant : List Nat) :
+    ∀ v, v ∈ variant → v ∈ (licmF p variant).2.2 := by
+  induction p generalizing variant with
+  | nil => intro v h; exact h
+  | cons st r ih =>
+    intro v h
+    cases st with
+    | stay defs => simp only [licmF]; exact ih _ v (List.mem_append_right _ h)
+    | pure x reads trap =>
+      simp only [licmF]
+      split
+      · exact ih _ v h
+      · exact ih _ v (List.mem_cons_of_mem _ h)
+
+theorem licmF_kept_defs_variant (p : List LS) (variant : List Nat) :
+    ∀ s, s ∈ (licmF p variant).2.1 →
+      (∀ x reads t, s = .pure x reads t → x ∈ (licmF p variant).2.2) ∧
+      (∀ defs, s = .stay defs → ∀ d, d ∈ defs → d ∈ (licmF p variant).2.2) := by
+  induction p generalizing variant with
+  | nil => intro s h; simp [licmF] at h
+  | cons st r ih =>
+    intro s h
+    cases st with
+    | stay defs =>
+      simp only [licmF, List.mem_cons] at h ⊢
+      rcases h with rfl | h
+      · refine ⟨fun x reads t e => LS.noConfusion e, fun d e => ?_⟩
+        injection e with e; subst e
+        intro y hy
+        exact licmF_variant_grows r _ y (List.mem_append_left _ hy)
+      · exact ih _ s h
+    | pure x reads trap =>
+      simp only [licmF] at h ⊢
+      split at h
+      · rename_i hc; simp only [hc, if_true]; exact ih _ s h
+      · rename_i hc
+        simp only [hc]
+        simp only [List.mem_cons] at h
+        rcases h with rfl | h
+        · refine ⟨fun y rs t e => ?_, fun d e => LS.noConfusion e⟩
+          injection e with e1 _ _; subst e1
+          exact licmF_variant_grows r _ x (by simp)
+        · exact ih _ s h
+
+example : (licmF [.pure 2 [1] false, .pure 3 [0] false, .pure 4 [3] false, .stay [5], .pure 6 [5] false, .pure 7 [1, 2] true] [0]).1
+    = [.pure 2 [1] false] := by decide
+
 /-! ## 10. Common-subexpression elimination never hoists a trap above an effect -/
 
 /-- FULL STRENGTH (`cse_hoist_order`): for all branches and environments, the statements CSE places
@@ -1103,6 +1184,33 @@ theorem inline_preserves (mg : Nat → Nat) (S : List Nat) (hinj : ∀ x y, mg x
 example : inlineCall (· + 1000) { ps := [0, 1], body := [.bin 2 .mul (.var 0) (.var 1), .print (.var 2)], ret := .var 2 }
             [.var 5, .lit 3] 9
         = [.bin 1002 .mul (.var 5) (.lit 3), .print (.var 1002), .bin 9 .add (.var 1002) (.lit 0)] := by decide
+
+/-- CSE over all value kinds: a DIV/MOD value is never among the common values that get hoisted -/
+theorem cseC_never_hoists_div (s1 s2 : List CS) :
+    ∀ k, k ∈ cseCommonC s1 s2 → ∀ op a b, k = .b (op, a, b) → op ≠ .div ∧ op ≠ .mod := by
+  intro k hk
+  have hk1 := (List.mem_filter.mp hk).1
+  clear hk
+  induction s1 with
+  | nil => simp [keysOfC] at hk1
+  | cons st r ih =>
+    cases st with
+    | eff => exact ih (by simpa [keysOfC] using hk1)
+    | un kind a i =>
+      simp only [keysOfC, List.mem_cons] at hk1
+      rcases hk1 with rfl | h
+      · intro op a' b' e; exact CKey.noConfusion e
+      · exact ih h
+    | bin op a b =>
+      simp only [keysOfC] at hk1
+      split at hk1
+      · rename_i hc
+        simp only [List.mem_cons] at hk1
+        rcases hk1 with rfl | h
+        · intro op' a' b' e
+          injection e with e; injection e with e1 _; subst e1; exact hc
+        · exact ih h
+      · exact ih hk1
 
 end SamVerif.Opt
 
